@@ -183,18 +183,18 @@ class Event(_V):
 
     def set(self):
         self._s()
-        _ex().point()
+        _ex().point("signal")
         self._flag = True
 
     def clear(self):
         self._s()
-        _ex().point()
+        _ex().point("signal")
         self._flag = False
 
     def wait(self, timeout=None):
         self._s()
         ex = _ex()
-        ex.point()
+        ex.point("wait")
         if self._flag:
             return True
         ok = ex.block(lambda: self._flag, timeout, on=(self, "event"))
@@ -223,7 +223,7 @@ class Condition(_V):
         ex = _ex()
         if not self._lock._is_owned():
             raise RuntimeError("cannot wait on un-acquired lock")
-        ex.point()
+        ex.point("wait")
         tok = [False]
         self._waiters.append(tok)
         if isinstance(self._lock, RLock):
@@ -266,7 +266,7 @@ class Condition(_V):
         self._s()
         if not self._lock._is_owned():
             raise RuntimeError("cannot notify on un-acquired lock")
-        _ex().point()
+        _ex().point("signal")
         for _ in range(n):
             if not self._waiters:
                 break
@@ -307,7 +307,7 @@ class Semaphore(_V):
 
     def release(self, n=1):
         self._s()
-        _ex().point()
+        _ex().point("signal")
         self._value += n
 
     def __exit__(self, *a):
@@ -349,7 +349,7 @@ class Queue(_V):
     def put(self, item, block=True, timeout=None):
         self._s()
         ex = _ex()
-        ex.point()
+        ex.point("signal")
         if self._full():
             if not block:
                 raise _rq.Full
@@ -365,7 +365,7 @@ class Queue(_V):
     def get(self, block=True, timeout=None):
         self._s()
         ex = _ex()
-        ex.point()
+        ex.point("wait")
         if not self._q:
             if not block:
                 raise _rq.Empty
@@ -605,7 +605,7 @@ class Future:
         return self._result
 
     def add_done_callback(self, fn):
-        _ex().point()
+        _ex().point("signal")
         if self._state not in _DONE_STATES:
             self._done_callbacks.append(fn)
             return
@@ -616,7 +616,7 @@ class Future:
 
     def result(self, timeout=None):
         ex = _ex()
-        ex.point()
+        ex.point("wait")
         if self._state in (_CANCELLED, _CANCELLED_AND_NOTIFIED):
             raise _cf.CancelledError()
         if self._state == _FINISHED:
@@ -630,7 +630,7 @@ class Future:
 
     def exception(self, timeout=None):
         ex = _ex()
-        ex.point()
+        ex.point("wait")
         if self._state in (_CANCELLED, _CANCELLED_AND_NOTIFIED):
             raise _cf.CancelledError()
         if self._state == _FINISHED:
@@ -652,7 +652,7 @@ class Future:
         raise RuntimeError("Future in unexpected state")
 
     def set_result(self, result):
-        _ex().point()
+        _ex().point("signal")
         if self._state in _DONE_STATES:
             raise _cf._base.InvalidStateError(f"{self._state}: {self!r}")
         self._result = result
@@ -660,7 +660,7 @@ class Future:
         self._invoke_callbacks()
 
     def set_exception(self, exception):
-        _ex().point()
+        _ex().point("signal")
         if self._state in _DONE_STATES:
             raise _cf._base.InvalidStateError(f"{self._state}: {self!r}")
         self._exception = exception
@@ -691,7 +691,7 @@ class ThreadPoolExecutor:
 
     def submit(self, fn, /, *args, **kwargs):
         ex = _ex()
-        ex.point()
+        ex.point("signal")
         if self._broken:
             raise _cf.thread.BrokenThreadPool(self._broken)
         if self._shutdown:
